@@ -29,6 +29,12 @@ def specs(draw, tier):
         rc = draw(st.floats(3, 8 if dim < 3 else 4.5, **finite))  # radius in cells of the largest spacing
         wc = draw(st.floats(1, 2 if dim < 3 else 1.5, **finite))
         nd = draw(st.sampled_from([1, 1, 2, 3, 4])) if dim < 3 else 1
+        if dim < 3 and draw(st.integers(0, 9)) == 4:
+            # a finely resolved droplet: radius and interface width span many cells
+            wc = draw(st.floats(3, 12 if dim == 1 else 8, **finite))
+            rc = wc * draw(st.floats(2.5, 5, **finite))
+            nd = 1
+            spec["fine"] = True
         if nd > 1:
             rc = min(rc, 5.0)
         # box large enough for the droplet(s), their tails and the 'mean' threshold region
@@ -71,6 +77,10 @@ def specs(draw, tier):
     elif fam in ("polar", "spherical"):
         rc = draw(st.floats(3, 8, **finite))
         wc = draw(st.floats(1, 2, **finite))
+        if draw(st.integers(0, 5)) == 3:  # finely resolved
+            wc = draw(st.floats(3, 12, **finite))
+            rc = wc * draw(st.floats(2.5, 5, **finite))
+            spec["fine"] = True
         n = int(math.ceil(rc + 5 * wc + 2)) + draw(st.integers(0, 10))
         spec["grid"] = {"n": n, "dr": base}
         dim = 2 if fam == "polar" else 3
@@ -190,6 +200,8 @@ class C05(Property):
         dmax = float(dxs.max())
         aniso = float(dxs.max() / dxs.min())
         ctx.cls(fam, f"thr:{spec['threshold']}", f"intensity:{opt}", f"n{len(drops)}")
+        if spec.get("fine"):
+            ctx.cls("finely-resolved")
         straddle = False
         if fam == "cart":
             for d in drops:
